@@ -4,6 +4,7 @@ import (
 	"context"
 	"errors"
 	"fmt"
+	"sync/atomic"
 	"testing"
 	"testing/synctest"
 	"time"
@@ -38,7 +39,7 @@ func TestC09Chan(t *testing.T) {
 	vf.Run(t, "C09Chan", vf.Opts{Bubble: true, DefaultN: 54}, func(c *vf.Case) {
 		r := c.Rng
 		status := nonEndedStatuses[c.Index%9]
-		ending := (c.Index / 9) % 3 // 0 cancel 1 error 2 complete
+		ending := (c.Index / 9) % 3  // 0 cancel 1 error 2 complete
 		timing := (c.Index / 27) % 3 // racing event 0 before, 1 during, 2 after the cleanup
 		rl := allRoles[(c.Index/81)%4]
 		peers := gen.Peers(r, 2)
@@ -229,7 +230,7 @@ func TestC09Close(t *testing.T) {
 	vf.Run(t, "C09Close", vf.Opts{Bubble: true, DefaultN: 48}, func(c *vf.Case) {
 		r := c.Rng
 		rl := allRoles[c.Index%4]
-		gsState := (c.Index / 4) % 6 // 0 no transport channel, 1 tracked never opened, 2 open, 3 cancelled by an earlier close, 4 requester cancelled, 5 completed
+		gsState := (c.Index / 4) % 6    // 0 no transport channel, 1 tracked never opened, 2 open, 3 cancelled by an earlier close, 4 requester cancelled, 5 completed
 		closeKind := (c.Index / 24) % 2 // 0 user close, 1 close with error
 		sendMode := r.Intn(3)           // 0 ok, 1 fails at once, 2 fails after a delay
 		peers := gen.Peers(r, 2)
@@ -315,6 +316,7 @@ func TestC09Close(t *testing.T) {
 			settle()
 			return
 		}
+		var injected, latency atomic.Int64 // virtual ns the harness itself made the call wait / the call took
 		switch sendMode {
 		case 1:
 			f.net.SetOnSend(func(p peer.ID, m datatransfer.Message) error {
@@ -326,6 +328,7 @@ func TestC09Close(t *testing.T) {
 		case 2:
 			f.net.SetOnSend(func(p peer.ID, m datatransfer.Message) error {
 				if m.IsCancel() {
+					injected.Add(int64(3 * time.Second))
 					time.Sleep(3 * time.Second)
 					return errors.New("stream reset")
 				}
@@ -341,6 +344,7 @@ func TestC09Close(t *testing.T) {
 		if sendMode == 0 && ctxMode == 1 {
 			f.net.SetOnSend(func(p peer.ID, m datatransfer.Message) error {
 				if m.IsCancel() {
+					injected.Add(int64(500 * time.Millisecond))
 					time.Sleep(500 * time.Millisecond) // opening the stream takes a moment
 				}
 				return nil
@@ -357,6 +361,7 @@ func TestC09Close(t *testing.T) {
 			} else {
 				err = f.m.(closerWithError).CloseDataTransferChannelWithError(ctx, chid, errors.New("monitor gave up"))
 			}
+			latency.Store(int64(time.Since(t0)))
 			cancel()
 			done <- err
 		}()
@@ -369,7 +374,14 @@ func TestC09Close(t *testing.T) {
 			returned = true
 		default:
 		}
-		_ = t0
+		// "returns promptly": on the virtual clock code that does not wait on a timer takes no time at
+		// all, so any latency beyond the delays this harness injected into the message send means the
+		// call only came back because a library fail-safe timer expired
+		if lat, inj := latency.Load(), injected.Load(); returned && lat > inj {
+			c.Violation("C09", fmt.Sprintf("close-waited-for-library-timeout role=%s gsstate=%d", rl, gsState), "close (kind %d) of a %s channel in %s with graphsync request state %d took %v of virtual time, %v more than the send delays injected by the harness", closeKind, rl, before.Status, gsState, time.Duration(lat), time.Duration(lat-inj))
+		} else if returned {
+			c.Count("close_latency_equals_injected_delay", 1)
+		}
 		if !returned {
 			c.Violation("C09", fmt.Sprintf("close-hangs role=%s gsstate=%d", rl, gsState), "close (kind %d) of a %s channel in %s with graphsync request state %d has not returned after 2 virtual minutes", closeKind, rl, before.Status, gsState)
 		} else if cerr != nil {
